@@ -1,6 +1,918 @@
-//! C16: harness commands for property C16 (stub).
+//! C16: without layout tables glyphs and positions are the font's cmap and metrics; axis discipline
+//! (horizontal => y_advance = 0, vertical => x_advance = 0) and glyph ids <= 0xFFFF in every font.
+//!
+//!   rbv c16 alphabet                              checks the generator's character classes against the real Unicode functions
+//!   rbv c16 simple --seed S --fonts F --per K     generated cmap/hmtx(/vmtx) fonts x requests, for the Gallina model
+//!   rbv c16 inv --seed S --per K --part I --parts N   axis/range invariants on the corpus fonts
+//!   rbv c16 gen --seed S --n N                    axis/range invariants on generated GPOS/kern fonts
+//!   rbv c16 one (--font PATH | --fonthex HEX) --req R [--nf G] [--var "wght=300,.."]   one request (replays)
+//!   rbv c16 witness                               the not-found-variation-selector witness
+use crate::fontgen::coq::ToCoq;
+use crate::fontgen::*;
+use crate::shp::*;
+use crate::util::*;
+use rustybuzz::verif::normalize as nhook;
+use rustybuzz::verif::unicode as uhook;
+use rustybuzz::{script, Direction, Face, UnicodeBuffer};
 
-pub fn run(_args: &[String]) {
-    eprintln!("c16: not implemented");
-    std::process::exit(2);
+// ------------------------------------------------------------------------------------------------
+// character classes of the generator
+
+const MIRROR: &[(u32, u32)] = &[
+    (0x28, 0x29), (0x29, 0x28), (0x3C, 0x3E), (0x3E, 0x3C), (0x5B, 0x5D), (0x5D, 0x5B), (0x7B, 0x7D), (0x7D, 0x7B),
+    (0xAB, 0xBB), (0xBB, 0xAB), (0x3008, 0x3009), (0x3009, 0x3008), (0x300C, 0x300D), (0x300D, 0x300C),
+    (0xFF08, 0xFF09), (0xFF09, 0xFF08),
+];
+const VERT: &[(u32, u32)] = &[
+    (0x2014, 0xFE31), (0x2026, 0xFE19), (0x3001, 0xFE11), (0x3002, 0xFE12), (0x3008, 0xFE3F), (0x3009, 0xFE40),
+    (0x300C, 0xFE41), (0x300D, 0xFE42), (0xFF08, 0xFE35), (0xFF09, 0xFE36),
+];
+const VS: &[u32] = &[0xFE00, 0xFE01, 0xFE0F, 0xE0100];
+
+fn plain_pool() -> Vec<u32> {
+    let mut v: Vec<u32> = Vec::new();
+    v.extend(0x30..=0x39); // digits
+    v.extend(0x41..=0x5A);
+    v.extend(0x61..=0x7A);
+    v.extend([0x21, 0x22, 0x23, 0x25, 0x26, 0x27, 0x2A, 0x2C, 0x2D, 0x2E, 0x2F, 0x3A, 0x3B, 0x3F, 0x40, 0x5C, 0x5F]);
+    v.extend(0x410..=0x418); // Cyrillic without the two decomposable letters
+    v.extend(0x41A..=0x438);
+    v.extend(0x43A..=0x44F);
+    v.extend(0x5D0..=0x5EA); // Hebrew letters
+    v.extend(0x4E00..=0x4E3F); // CJK ideographs
+    v.extend(0xE000..=0xE07F); // PUA
+    v.extend(0xF0000..=0xF000F); // supplementary PUA
+    v
+}
+
+fn alt_pool() -> Vec<u32> {
+    // characters with a mirrored and/or vertical alternate, and the alternates themselves (as cmap keys)
+    let mut v: Vec<u32> = MIRROR.iter().map(|p| p.0).collect();
+    v.extend(VERT.iter().map(|p| p.0));
+    v.sort();
+    v.dedup();
+    v
+}
+
+fn vert_targets() -> Vec<u32> {
+    VERT.iter().map(|p| p.1).collect()
+}
+
+fn props(c: u32) -> (u32, bool) {
+    let ch = char::from_u32(c).unwrap();
+    let (p, _) = uhook::init_unicode_props(ch);
+    ((p & 0x1F) as u32, uhook::is_default_ignorable(ch))
+}
+
+fn cmd_alphabet() {
+    let mut bad = 0;
+    let mut n = 0;
+    for c in plain_pool().into_iter().chain(alt_pool()).chain(vert_targets()) {
+        n += 1;
+        let ch = char::from_u32(c).unwrap();
+        let (gc, ign) = props(c);
+        let (is_mark, _, is_space, fb) = nhook::info_props(ch);
+        if is_mark || (10..=12).contains(&gc) || ign || is_space || fb || gc == 29 || c == 0x2011 || nhook::decompose(ch).is_some() {
+            println!("anomaly alphabet {:X} gc={} ign={} mark={} space={} decomposes={}", c, gc, ign, is_mark, is_space, nhook::decompose(ch).is_some());
+            bad += 1;
+        }
+    }
+    for c in VS {
+        n += 1;
+        let (gc, ign) = props(*c);
+        if gc != 12 || !ign {
+            println!("anomaly vs {:X} gc={} ign={}", c, gc, ign);
+            bad += 1;
+        }
+    }
+    println!("alphabet-summary chars={} anomalies={}", n, bad);
+}
+
+// ------------------------------------------------------------------------------------------------
+// effective segment properties
+
+fn probe(req: &Req) -> (Direction, u8) {
+    // what guess_segment_properties makes of the request: effective direction and the native horizontal
+    // direction of the script (0 invalid, 1 ltr, 2 rtl, 9 = a script this generator does not expect)
+    let mut b = fill(req, UnicodeBuffer::new());
+    b.guess_segment_properties();
+    let d = b.direction();
+    let s = b.script();
+    let hor = if s == script::UNKNOWN {
+        0
+    } else if s == script::LATIN || s == script::CYRILLIC || s == script::HAN {
+        1
+    } else if s == script::HEBREW {
+        2
+    } else {
+        9
+    };
+    (d, hor)
+}
+
+fn effective_dir(req: &Req) -> Direction {
+    let mut b = fill(req, UnicodeBuffer::new());
+    b.guess_segment_properties();
+    b.direction()
+}
+
+// ------------------------------------------------------------------------------------------------
+// generated cmap/hmtx(/vmtx) fonts
+
+struct SimpleFont {
+    spec: FontSpec,
+    mapped: Vec<u32>,
+    unmapped: Vec<u32>,
+}
+
+fn gen_simple_font(rng: &mut Rng, idx: u64) -> SimpleFont {
+    let fmt = match idx % 3 {
+        0 => CmapFormat::Format12,
+        1 => CmapFormat::Format4,
+        _ => CmapFormat::Both,
+    };
+    let mut pool = plain_pool();
+    pool.extend(alt_pool());
+    // the vertical presentation forms are mapped in half of the fonts (so the replacement fires)
+    let with_vert = rng.chance(1, 2);
+    if with_vert {
+        for t in vert_targets() {
+            if rng.chance(3, 4) {
+                pool.push(t);
+            }
+        }
+    }
+    // a font maps U+FE00 itself now and then (the selector then has a nominal glyph)
+    if rng.chance(1, 4) {
+        pool.push(0xFE00);
+    }
+    if fmt == CmapFormat::Format4 {
+        pool.retain(|c| *c <= 0xFFFF);
+    }
+    let want = rng.range(20, 200) as usize;
+    // keep mirrored characters at a higher rate so that rotate_chars has work
+    let mut chosen: Vec<u32> = Vec::new();
+    let mut rest: Vec<u32> = Vec::new();
+    let alts = alt_pool();
+    for c in pool {
+        let p = if alts.contains(&c) { 2 } else { 1 };
+        if rng.chance(p * want as u64, 330) {
+            chosen.push(c);
+        } else {
+            rest.push(c);
+        }
+    }
+    chosen.sort();
+    chosen.dedup();
+    let n = chosen.len() as u16;
+    let spare = rng.below(3) as u16;
+    let num_glyphs = n + 1 + spare;
+    // glyph ids: random permutation of 1..=n, sometimes two characters share a glyph
+    let mut gids: Vec<u16> = (1..=n).collect();
+    for i in (1..gids.len()).rev() {
+        let j = rng.below(i as u64 + 1) as usize;
+        gids.swap(i, j);
+    }
+    if n > 3 && rng.chance(1, 3) {
+        let a = rng.below(n as u64) as usize;
+        let b = rng.below(n as u64) as usize;
+        gids[a] = gids[b];
+    }
+    let hadv: Vec<u16> = (0..num_glyphs)
+        .map(|_| match rng.below(8) {
+            0 => 0,
+            1 => rng.range(32768, 65535) as u16,
+            2 => (rng.range(0, 2000) as u16) | 1,
+            _ => rng.range(0, 3000) as u16,
+        })
+        .collect();
+    let extreme = rng.chance(1, 6);
+    let (asc, desc) = if extreme {
+        (rng.range(20000, 32767) as i16, -(rng.range(15000, 32768) as i32) as i16)
+    } else {
+        (rng.range(0, 2000) as i16 - 200, -(rng.range(0, 900) as i16) + 100)
+    };
+    let vmetrics = if rng.chance(1, 2) {
+        Some(VMetrics {
+            ascender: rng.range(0, 1000) as i16,
+            descender: -(rng.range(0, 1000) as i16),
+            line_gap: 0,
+            vadv: (0..num_glyphs).map(|_| if rng.chance(1, 8) { rng.range(32768, 65535) as u16 } else { rng.range(0, 4000) as u16 }).collect(),
+        })
+    } else {
+        None
+    };
+    let cmap: Vec<(u32, u16)> = chosen.iter().cloned().zip(gids.iter().cloned()).collect();
+    // cmap 14: a few (base, selector, glyph) entries over mapped and unmapped bases
+    let mut cmap14: Vec<(u32, u32, u16)> = Vec::new();
+    if rng.chance(2, 3) && n > 2 {
+        for _ in 0..rng.range(1, 6) {
+            let base = if rng.chance(5, 6) { *rng.pick(&chosen) } else { *rng.pick(&rest) };
+            if VS.contains(&base) || (fmt == CmapFormat::Format4 && base > 0xFFFF) {
+                continue;
+            }
+            let vs = *rng.pick(VS);
+            let g = rng.range(1, n as u64) as u16;
+            if !cmap14.iter().any(|e| e.0 == base && e.1 == vs) {
+                cmap14.push((base, vs, g));
+            }
+        }
+        cmap14.sort_by_key(|e| (e.1, e.0));
+    }
+    let spec = FontSpec {
+        num_glyphs,
+        units_per_em: *rng.pick(&[16u16, 1000, 1000, 2048, 16384]),
+        ascender: asc,
+        descender: desc,
+        line_gap: 0,
+        hadv,
+        vmetrics,
+        cmap,
+        cmap_format: fmt,
+        cmap14,
+        ..FontSpec::default()
+    };
+    let mut unmapped: Vec<u32> = rest.into_iter().filter(|c| !VS.contains(c)).collect();
+    if fmt == CmapFormat::Format4 {
+        unmapped.extend([0xF0000, 0xF0001]);
+    }
+    SimpleFont { spec, mapped: chosen.into_iter().filter(|c| !VS.contains(c)).collect(), unmapped }
+}
+
+fn gen_simple_req(rng: &mut Rng, f: &SimpleFont) -> Req {
+    let mut r = Req::default();
+    let len = match rng.below(10) {
+        0 => 0,
+        1 => 1,
+        _ => rng.range(2, 12),
+    } as usize;
+    let with_vs = rng.chance(1, 4);
+    // one text = one "flavour" of characters most of the time, so that script guessing sees all scripts
+    let flavour = rng.below(8);
+    let sub: Vec<u32> = match flavour {
+        0 => f.mapped.iter().cloned().filter(|c| (0x5D0..=0x5EA).contains(c) || (0x30..=0x39).contains(c) || alt_pool().contains(c)).collect(),
+        1 => f.mapped.iter().cloned().filter(|c| *c >= 0xE000 && !(0xFE00..=0xFFFF).contains(c)).collect(),
+        2 => f.mapped.iter().cloned().filter(|c| (0x3000..=0x4FFF).contains(c) || (0xFF00..=0xFF60).contains(c) || (0x2000..=0x20FF).contains(c)).collect(),
+        3 => f.mapped.iter().cloned().filter(|c| *c < 0x80 || alt_pool().contains(c)).collect(),
+        _ => f.mapped.clone(),
+    };
+    let sub = if sub.is_empty() { f.mapped.clone() } else { sub };
+    let mut cl = rng.below(4) as u32;
+    let free_clusters = !with_vs && rng.chance(1, 5);
+    let mut i = 0;
+    while i < len {
+        let mut c = if rng.chance(1, 10) && !f.unmapped.is_empty() { *rng.pick(&f.unmapped) } else { *rng.pick(&sub) };
+        let mut force_vs = false;
+        if with_vs && !f.spec.cmap14.is_empty() && rng.chance(1, 4) {
+            c = rng.pick(&f.spec.cmap14).0;
+            force_vs = true;
+        }
+        r.text.push((c, cl));
+        if with_vs && (force_vs || rng.chance(1, 3)) {
+            cl += rng.range(1, 2) as u32;
+            // prefer a selector the font has a cmap-14 entry for, half of the time
+            let hit: Vec<u32> = f.spec.cmap14.iter().filter(|e| e.0 == c).map(|e| e.1).collect();
+            let vs = if !hit.is_empty() && (force_vs || rng.chance(1, 2)) && rng.chance(5, 6) { *rng.pick(&hit) } else { *rng.pick(VS) };
+            r.text.push((vs, cl));
+        }
+        if free_clusters {
+            cl = rng.below(6) as u32;
+        } else {
+            cl += rng.range(1, 3) as u32;
+        }
+        i += 1;
+    }
+    r.dir = match rng.below(6) {
+        0 => None,
+        1 | 5 => Some(Direction::LeftToRight),
+        2 => Some(Direction::RightToLeft),
+        3 => Some(Direction::TopToBottom),
+        _ => Some(Direction::BottomToTop),
+    };
+    r.script = match rng.below(12) {
+        0 => Some("Hebr".to_string()),
+        1 => Some("Latn".to_string()),
+        2 => Some("Hani".to_string()),
+        _ => None,
+    };
+    r.level = rng.below(3) as u8;
+    r.flags = if rng.chance(1, 2) { 0 } else { (rng.below(256) as u32) & !0x20 };
+    if with_vs {
+        r.nf_vs = Some(match rng.below(6) {
+            0 => 0,
+            1 => 0xFFFF,
+            2 => 64000,
+            3 => 0x10000 + rng.below(0x20000) as u32,
+            _ => rng.below(300) as u32,
+        });
+        // a variation selector as first character would call for the dotted circle: not in the domain
+    } else if rng.chance(1, 8) {
+        r.nf_vs = Some(rng.below(70000) as u32);
+    }
+    if rng.chance(1, 4) {
+        r.features = vec![rng.pick(&["kern", "-kern", "liga=0", "vert", "ss01[1:3]", "rtlm", "vkrn", "mark=0"]).to_string()];
+    }
+    if rng.chance(1, 6) {
+        r.pre = vec![0xE000];
+    }
+    if rng.chance(1, 6) {
+        r.post = vec![0x41];
+    }
+    r
+}
+
+fn list_u32(v: &[(u32, u32)]) -> String {
+    let s: Vec<String> = v.iter().map(|(a, b)| format!("{}:{}", a, b)).collect();
+    if s.is_empty() { "-".into() } else { s.join(",") }
+}
+
+fn fmt_out(gs: &[G]) -> String {
+    if gs.is_empty() {
+        return "-".into();
+    }
+    let v: Vec<String> = gs.iter().map(|g| format!("{}:{}:{}:{}:{}:{}", g.gid, g.cluster, g.xa, g.ya, g.xo, g.yo)).collect();
+    v.join("|")
+}
+
+fn cmd_simple(args: &[String]) {
+    let seed = arg_u64(args, "--seed", 1);
+    let nfonts = arg_u64(args, "--fonts", 10);
+    let per = arg_u64(args, "--per", 20);
+    println!("tables mir={} vert={}", list_u32(MIRROR), list_u32(VERT));
+    let mut rng = Rng::new(seed ^ 0xC16);
+    for fi in 0..nfonts {
+        let f = gen_simple_font(&mut rng, fi);
+        let problems = check(&f.spec);
+        if !problems.is_empty() {
+            println!("anomaly font {} spec: {}", fi, problems.join("; "));
+            continue;
+        }
+        let bytes = build(&f.spec);
+        let Some(face) = Face::from_slice(&bytes, 0) else {
+            println!("anomaly font {} rejected", fi);
+            continue;
+        };
+        println!("font {} {}", fi, f.spec.coq());
+        let vm = match &f.spec.vmetrics {
+            Some(v) => v.vadv.iter().map(|x| x.to_string()).collect::<Vec<_>>().join(","),
+            None => "-".into(),
+        };
+        println!(
+            "fontdata {} asc={} desc={} hadv={} vadv={} cmap={} cmap14={} hex={}",
+            fi,
+            f.spec.ascender,
+            f.spec.descender,
+            f.spec.hadv.iter().map(|x| x.to_string()).collect::<Vec<_>>().join(","),
+            vm,
+            list_u32(&f.spec.cmap.iter().map(|(c, g)| (*c, *g as u32)).collect::<Vec<_>>()),
+            if f.spec.cmap14.is_empty() { "-".to_string() } else { f.spec.cmap14.iter().map(|(b, s, g)| format!("{}:{}:{}", b, s, g)).collect::<Vec<_>>().join(",") },
+            hex(&bytes),
+        );
+        for _ in 0..per {
+            let req = gen_simple_req(&mut rng, &f);
+            let (d, hor) = probe(&req);
+            if hor == 9 {
+                println!("anomaly script-not-expected {}", fmt_req(&req));
+                continue;
+            }
+            // oracle values for the characters of the text and of both tables
+            let mut chars: Vec<u32> = req.text.iter().map(|t| t.0).collect();
+            chars.sort();
+            chars.dedup();
+            let gcs: Vec<String> = chars
+                .iter()
+                .map(|c| {
+                    let (gc, ign) = props(*c);
+                    format!("{}:{}:{}", c, gc, ign as u8)
+                })
+                .collect();
+            let face_ref = &face;
+            let req2 = req.clone();
+            let res = catch(std::panic::AssertUnwindSafe(move || shape_req(face_ref, &req2)));
+            let out = match res {
+                Ok(o) => fmt_out(&o),
+                Err(c) => format!("panic:{}", c),
+            };
+            println!(
+                "case {} dir={} hor={} level={} nf={} zi={} gc={} text={} req={} out={}",
+                fi,
+                dir_name(Some(d)),
+                hor,
+                req.level,
+                req.nf_vs.map(|g| g.to_string()).unwrap_or("-".into()),
+                if req.flags & 0xC == 0 { 1 } else { 0 },
+                if gcs.is_empty() { "-".to_string() } else { gcs.join(",") },
+                list_u32(&req.text),
+                fmt_req(&req).replace(' ', "~"),
+                out
+            );
+        }
+    }
+}
+
+// ------------------------------------------------------------------------------------------------
+// universal invariants
+
+#[derive(Default)]
+struct InvStats {
+    shapes: u64,
+    glyphs: u64,
+    nontrivial: u64,
+    horizontal: u64,
+    vertical: u64,
+    known: u64,
+    viol: u64,
+    panics: u64,
+    nf_over: u64,
+}
+
+/// returns (what, known_class) for every broken invariant
+fn broken(d: Direction, out: &[G], nf: Option<u32>) -> Vec<(String, bool)> {
+    let mut v = Vec::new();
+    let horizontal = matches!(d, Direction::LeftToRight | Direction::RightToLeft);
+    let vertical = matches!(d, Direction::TopToBottom | Direction::BottomToTop);
+    for (i, g) in out.iter().enumerate() {
+        if horizontal && g.ya != 0 {
+            v.push((format!("horizontal-y_advance glyph#{} gid={} y_advance={}", i, g.gid, g.ya), false));
+        }
+        if vertical && g.xa != 0 {
+            v.push((format!("vertical-x_advance glyph#{} gid={} x_advance={}", i, g.gid, g.xa), false));
+        }
+        if g.gid > 0xFFFF {
+            let known = nf == Some(g.gid);
+            v.push((format!("gid-over-0xFFFF glyph#{} gid={}", i, g.gid), known));
+        }
+    }
+    if !horizontal && !vertical {
+        v.push(("direction-invalid".to_string(), false));
+    }
+    v
+}
+
+const FEATS: &[&str] = &[
+    "kern", "-kern", "liga", "-liga", "dlig", "vkrn", "vert", "vrt2", "valt", "vpal", "vhal", "palt", "halt", "smcp", "frac", "mark=0", "curs",
+    "dist", "ss01", "aalt=2", "kern[1:3]", "vpal[0:2]", "trak", "-trak", "opbd", "lfbd", "rtbd", "cpsp", "case", "sups", "ordn", "locl=0", "ccmp=0",
+    "mkmk=0", "abvm=0", "blwm=0", "rlig=0", "calt=0", "rclt=0", "init", "fina", "medi", "isol",
+];
+const EXTRA_CHARS: &[u32] = &[
+    0x20, 0xA0, 0x2009, 0x202F, 0x3000, 0x301, 0x308, 0x323, 0x200D, 0x200C, 0x200B, 0xAD, 0x34F, 0x25CC, 0x2011, 0xFE00, 0xFE0F, 0xE0100,
+    0x180B, 0x640, 0x64E, 0x651, 0x5B4, 0x93C, 0x94D, 0xE31, 0xE47, 0x1F3FB, 0x1F1E6, 0x1F1FA, 0x2044, 0x31, 0x32, 0x28, 0x29, 0x3001, 0xFF08,
+];
+const NF_VALUES: &[u32] = &[0, 1, 3, 64000, 0xFFFF, 0x10000, 0x12345, 0xFFFF_FFFF, 0x110000];
+
+fn gen_inv_req(rng: &mut Rng, chars: &[u32]) -> Req {
+    let mut r = Req::default();
+    let len = rng.range(1, 14) as usize;
+    let mut cl = 0u32;
+    // texts stay close together in the cmap most of the time (same script), with foreign characters mixed in
+    let base = rng.below(chars.len().max(1) as u64) as usize;
+    for _ in 0..len {
+        let c = if chars.is_empty() || rng.chance(1, 7) {
+            *rng.pick(EXTRA_CHARS)
+        } else if rng.chance(3, 4) {
+            chars[(base + rng.below(40) as usize) % chars.len()]
+        } else {
+            *rng.pick(chars)
+        };
+        r.text.push((c, cl));
+        if rng.chance(1, 12) {
+            cl += 1;
+            r.text.push((*rng.pick(VS), cl));
+        }
+        cl += rng.range(0, 2) as u32;
+    }
+    r.level = rng.below(3) as u8;
+    r.flags = if rng.chance(1, 2) { 0 } else { (rng.below(256) as u32) & !0x20 };
+    let nfeat = match rng.below(4) {
+        0 => 0,
+        1 => 1,
+        2 => 2,
+        _ => rng.range(1, 5),
+    };
+    for _ in 0..nfeat {
+        r.features.push(rng.pick(FEATS).to_string());
+    }
+    if rng.chance(1, 5) {
+        r.nf_vs = Some(*rng.pick(NF_VALUES));
+    }
+    if rng.chance(1, 10) {
+        r.script = Some(rng.pick(&["Arab", "Hebr", "Deva", "Latn", "Hani", "Mong", "Thai", "Hang", "Khmr", "Mymr", "Zzzz"]).to_string());
+    }
+    if rng.chance(1, 12) {
+        r.lang = Some(rng.pick(&["en", "ar", "zh-hant", "ja", "tr", "sr", "ur"]).to_string());
+    }
+    r
+}
+
+const DIRS: [Option<Direction>; 5] =
+    [Some(Direction::LeftToRight), Some(Direction::RightToLeft), Some(Direction::TopToBottom), Some(Direction::BottomToTop), None];
+
+fn shape_checked(face: &Face, req: &Req, st: &mut InvStats, describe: &dyn Fn() -> String, has_pos_tables: bool) {
+    let d = effective_dir(req);
+    let req2 = req.clone();
+    let res = catch(std::panic::AssertUnwindSafe(move || shape_req(face, &req2)));
+    st.shapes += 1;
+    match res {
+        Err(c) => {
+            // panics are C01's business; counted, not judged here
+            st.panics += 1;
+            let _ = c;
+        }
+        Ok(out) => {
+            st.glyphs += out.len() as u64;
+            if matches!(d, Direction::LeftToRight | Direction::RightToLeft) {
+                st.horizontal += 1;
+            } else {
+                st.vertical += 1;
+            }
+            // non-trivial: a positioning table exists and some glyph carries an offset or the cross-axis
+            // could have been touched (any non-zero offset), or a not-found-VS glyph was written
+            let moved = out.iter().any(|g| g.xo != 0 || g.yo != 0);
+            if (has_pos_tables && moved) || req.nf_vs.is_some() {
+                st.nontrivial += 1;
+            }
+            if let Some(g) = req.nf_vs {
+                if g > 0xFFFF {
+                    st.nf_over += 1;
+                }
+            }
+            for (what, known) in broken(d, &out, req.nf_vs) {
+                if known {
+                    st.known += 1;
+                    if st.known <= 5 {
+                        println!("known {} dir={} what={} nf={} out={}", describe(), dir_name(Some(d)), what.replace(' ', ";"), req.nf_vs.unwrap_or(0), fmt_out(&out));
+                    }
+                } else {
+                    st.viol += 1;
+                    println!(
+                        "viol {} dir={} what={} nf={} out={}",
+                        describe(),
+                        dir_name(Some(d)),
+                        what.replace(' ', ";"),
+                        req.nf_vs.map(|g| g.to_string()).unwrap_or("-".into()),
+                        fmt_out(&out)
+                    );
+                }
+            }
+        }
+    }
+}
+
+fn parse_vars(s: &str) -> Vec<(String, f32)> {
+    s.split(',')
+        .filter_map(|kv| {
+            let (k, v) = kv.split_once('=')?;
+            Some((k.to_string(), v.parse().ok()?))
+        })
+        .collect()
+}
+
+fn apply_vars(face: &mut Face, vars: &[(String, f32)]) {
+    for (k, v) in vars {
+        if k.len() == 4 {
+            let tag = rustybuzz::ttf_parser::Tag::from_bytes_lossy(k.as_bytes());
+            face.set_variation(tag, *v);
+        }
+    }
+}
+
+fn cmd_inv(args: &[String]) {
+    let seed = arg_u64(args, "--seed", 1);
+    let per = arg_u64(args, "--per", 8);
+    let part = arg_u64(args, "--part", 0) as usize;
+    let parts = arg_u64(args, "--parts", 1).max(1) as usize;
+    let fonts = corpus_fonts(&repo_root());
+    let mut st = InvStats::default();
+    let mut nfonts = 0;
+    let mut nrejected = 0;
+    for (i, path) in fonts.iter().enumerate() {
+        if i % parts != part {
+            continue;
+        }
+        let Ok(data) = std::fs::read(path) else { continue };
+        let mut rng = Rng::new(seed ^ 0xC16_0000 ^ ((i as u64) << 20));
+        let nfaces = rustybuzz::ttf_parser::fonts_in_collection(&data).unwrap_or(1).min(3);
+        for index in 0..nfaces {
+            let d2 = data.clone();
+            let face0 = catch(std::panic::AssertUnwindSafe(|| Face::from_slice(&d2, index).is_some()));
+            if !matches!(face0, Ok(true)) {
+                nrejected += 1;
+                continue;
+            }
+            let Some(mut face) = Face::from_slice(&data, index) else { continue };
+            nfonts += 1;
+            let chars = cmap_chars(&face, 600);
+            let t = face.tables();
+            let has_pos = t.gpos.is_some() || t.kern.is_some() || t.kerx.is_some() || t.trak.is_some();
+            let axes: Vec<(String, f32, f32)> = t
+                .fvar
+                .map(|f| f.axes.into_iter().map(|a| (a.tag.to_string(), a.min_value, a.max_value)).collect())
+                .unwrap_or_default();
+            for k in 0..per {
+                let mut vars: Vec<(String, f32)> = Vec::new();
+                if !axes.is_empty() && k % 2 == 1 {
+                    for (tag, lo, hi) in &axes {
+                        let v = lo + (hi - lo) * (rng.below(101) as f32) / 100.0;
+                        vars.push((tag.clone(), v));
+                    }
+                    apply_vars(&mut face, &vars);
+                }
+                let base = gen_inv_req(&mut rng, &chars);
+                for d in DIRS {
+                    let mut req = base.clone();
+                    req.dir = d;
+                    let vs: String = vars.iter().map(|(k, v)| format!("{}={}", k, v)).collect::<Vec<_>>().join(",");
+                    let p = path.clone();
+                    let r2 = req.clone();
+                    let describe = move || format!("font={} index={} var={} req={}", p, index, if vs.is_empty() { "-".to_string() } else { vs.clone() }, fmt_req(&r2).replace(' ', "~"));
+                    shape_checked(&face, &req, &mut st, &describe, has_pos);
+                }
+            }
+        }
+    }
+    println!(
+        "inv-summary fonts={} rejected={} shapes={} glyphs={} horizontal={} vertical={} nontrivial={} nf_over_16bit={} known={} viol={} panics={}",
+        nfonts, nrejected, st.shapes, st.glyphs, st.horizontal, st.vertical, st.nontrivial, st.nf_over, st.known, st.viol, st.panics
+    );
+}
+
+// ------------------------------------------------------------------------------------------------
+// generated fonts with GPOS / kern
+
+fn rv(rng: &mut Rng) -> i16 {
+    match rng.below(4) {
+        0 => 0,
+        _ => rng.range(0, 600) as i16 - 300,
+    }
+}
+
+fn rvr(rng: &mut Rng) -> ValueRecord {
+    match rng.below(5) {
+        0 => ValueRecord::new(0, 0, 0, rv(rng) | 1), // only a y_advance
+        1 => ValueRecord::new(0, 0, rv(rng) | 1, 0), // only an x_advance
+        _ => ValueRecord::new(rv(rng), rv(rng), rv(rng), rv(rng)),
+    }
+}
+
+fn ranchor(rng: &mut Rng) -> Option<Anchor> {
+    if rng.chance(1, 5) {
+        None
+    } else {
+        Some(Anchor { x: rng.range(0, 800) as i16 - 200, y: rng.range(0, 800) as i16 - 200 })
+    }
+}
+
+const NG: u16 = 24;
+
+fn gen_layout_font(rng: &mut Rng) -> (FontSpec, Vec<String>) {
+    let mut s = FontSpec::basic(NG);
+    if rng.chance(1, 2) {
+        s = s.with_basic_vmetrics();
+    }
+    // glyphs 1..=12 bases, 13..=15 ligatures, 16..=21 marks, 22..=23 unclassified
+    let with_gdef = rng.chance(2, 3);
+    if with_gdef {
+        let mut gc = Vec::new();
+        for g in 1..=12 {
+            gc.push((g, 1));
+        }
+        for g in 13..=15 {
+            gc.push((g, 2));
+        }
+        for g in 16..=21 {
+            gc.push((g, 3));
+        }
+        s.gdef = Some(Gdef { glyph_classes: gc, mark_attach_classes: vec![(16, 1), (17, 2)], mark_glyph_sets: vec![vec![16, 17]] });
+    }
+    let vf = if rng.chance(1, 2) { ValueFormat::All } else { ValueFormat::NonZero };
+    let mut lookups: Vec<Lookup<PosSubtable>> = Vec::new();
+    let mut feats: Vec<(Tag, Vec<u16>)> = Vec::new();
+    let tags: [&[u8; 4]; 8] = [b"kern", b"dist", b"mark", b"abvm", b"vkrn", b"valt", b"curs", b"mkmk"];
+    let nl = rng.range(1, 4);
+    for _ in 0..nl {
+        let kind = rng.below(7);
+        let lk = match kind {
+            0 => Lookup::one(PosSubtable::Single1 { coverage: Coverage::Ranges(vec![(1, rng.range(2, 23) as u16)]), value: rvr(rng), vf }),
+            1 => {
+                let gl: Vec<u16> = (1..NG).filter(|_| rng.chance(1, 2)).collect();
+                let vals = gl.iter().map(|_| rvr(rng)).collect();
+                Lookup::one(PosSubtable::Single2 { coverage: Coverage::Glyphs(gl), values: vals, vf })
+            }
+            2 => {
+                let firsts: Vec<u16> = (1..NG).filter(|_| rng.chance(1, 2)).collect();
+                let sets = firsts
+                    .iter()
+                    .map(|_| {
+                        let seconds: Vec<u16> = (1..NG).filter(|_| rng.chance(1, 3)).collect();
+                        seconds.into_iter().map(|g| (g, rvr(rng), if rng.chance(1, 2) { rvr(rng) } else { ValueRecord::ZERO })).collect()
+                    })
+                    .collect();
+                Lookup::one(PosSubtable::Pair1 { coverage: Coverage::Glyphs(firsts), pair_sets: sets, vf })
+            }
+            3 => {
+                let c1 = ClassDef::Format2 { ranges: vec![(1, 6, 1), (7, 12, 2)] };
+                let c2 = ClassDef::Format1 { start: 1, classes: (1..NG).map(|g| g % 3).collect() };
+                let recs = (0..3).map(|_| (0..3).map(|_| (rvr(rng), if rng.chance(1, 2) { rvr(rng) } else { ValueRecord::ZERO })).collect()).collect();
+                Lookup::one(PosSubtable::Pair2 { coverage: Coverage::Ranges(vec![(1, 12)]), class_def1: c1, class_def2: c2, records: recs, vf })
+            }
+            4 => {
+                let gl: Vec<u16> = (1..=12).filter(|_| rng.chance(2, 3)).collect();
+                let ee = gl.iter().map(|_| (ranchor(rng), ranchor(rng))).collect();
+                let mut l = Lookup::one(PosSubtable::Cursive { coverage: Coverage::Glyphs(gl), entry_exit: ee });
+                if rng.chance(1, 3) {
+                    l.flags |= lookup_flags::RIGHT_TO_LEFT;
+                }
+                l
+            }
+            5 => {
+                let marks: Vec<u16> = (16..=21).collect();
+                let bases: Vec<u16> = (1..=12).collect();
+                Lookup::one(PosSubtable::MarkBase {
+                    mark_coverage: Coverage::Glyphs(marks.clone()),
+                    base_coverage: Coverage::Glyphs(bases.clone()),
+                    class_count: 2,
+                    marks: marks.iter().map(|g| (g % 2, Anchor { x: rv(rng), y: rv(rng) })).collect(),
+                    bases: bases.iter().map(|_| vec![ranchor(rng), ranchor(rng)]).collect(),
+                })
+            }
+            _ => {
+                let marks: Vec<u16> = (16..=21).collect();
+                Lookup::one(PosSubtable::MarkMark {
+                    mark1_coverage: Coverage::Glyphs(marks.clone()),
+                    mark2_coverage: Coverage::Glyphs(marks.clone()),
+                    class_count: 1,
+                    marks: marks.iter().map(|_| (0, Anchor { x: rv(rng), y: rv(rng) })).collect(),
+                    mark2s: marks.iter().map(|_| vec![ranchor(rng)]).collect(),
+                })
+            }
+        };
+        let idx = lookups.len() as u16;
+        lookups.push(lk);
+        let tag = **rng.pick(&tags);
+        if let Some(f) = feats.iter_mut().find(|f| f.0 == tag) {
+            f.1.push(idx);
+        } else {
+            feats.push((tag, vec![idx]));
+        }
+    }
+    let mut user: Vec<String> = Vec::new();
+    if rng.chance(3, 4) {
+        s.gpos = Some(Layout::with_features(feats.clone(), lookups));
+        for (t, _) in &feats {
+            if (t == b"vkrn" || t == b"valt" || t == b"dist" || t == b"kern" || t == b"curs") && rng.chance(2, 3) {
+                user.push(String::from_utf8_lossy(t).to_string());
+            }
+        }
+    }
+    if rng.chance(1, 2) {
+        let n = rng.range(1, 3);
+        let mut sts = Vec::new();
+        for _ in 0..n {
+            let mut pairs: Vec<(u16, u16, i16)> = Vec::new();
+            for a in 1..NG {
+                for b in 1..NG {
+                    if rng.chance(1, 12) {
+                        pairs.push((a, b, (rng.range(0, 400) as i16 - 200) | 1));
+                    }
+                }
+            }
+            sts.push(KernSubtable { horizontal: rng.chance(2, 3), minimum: rng.chance(1, 8), cross_stream: rng.chance(1, 3), override_: rng.chance(1, 8), pairs });
+        }
+        s.kern = Some(sts);
+    }
+    (s, user)
+}
+
+fn hex(b: &[u8]) -> String {
+    let mut s = String::with_capacity(b.len() * 2);
+    for x in b {
+        s.push_str(&format!("{:02x}", x));
+    }
+    s
+}
+
+fn unhex(s: &str) -> Vec<u8> {
+    (0..s.len() / 2).filter_map(|i| u8::from_str_radix(&s[2 * i..2 * i + 2], 16).ok()).collect()
+}
+
+fn cmd_gen(args: &[String]) {
+    let seed = arg_u64(args, "--seed", 1);
+    let n = arg_u64(args, "--n", 50);
+    let per = arg_u64(args, "--per", 10);
+    let mut rng = Rng::new(seed ^ 0x6E16);
+    let mut st = InvStats::default();
+    let mut moved_cross = 0u64;
+    for fi in 0..n {
+        let (spec, user) = gen_layout_font(&mut rng);
+        let problems = check(&spec);
+        if !problems.is_empty() {
+            println!("anomaly gen-font {} {}", fi, problems.join("; "));
+            continue;
+        }
+        let bytes = build(&spec);
+        let Some(face) = Face::from_slice(&bytes, 0) else {
+            println!("anomaly gen-font {} rejected", fi);
+            continue;
+        };
+        let hx = hex(&bytes);
+        for _ in 0..per {
+            let mut base = Req::default();
+            let len = rng.range(1, 9);
+            for i in 0..len {
+                let g = if rng.chance(1, 3) { rng.range(16, 21) } else { rng.range(1, 15) } as u32;
+                base.text.push((pua(g - 1), i as u32));
+            }
+            base.level = rng.below(3) as u8;
+            base.features = user.iter().filter(|_| rng.chance(3, 4)).cloned().collect();
+            if rng.chance(1, 6) {
+                base.features.push("-kern".into());
+            }
+            for d in DIRS {
+                let mut req = base.clone();
+                req.dir = d;
+                let r2 = req.clone();
+                let hx2 = &hx;
+                let describe = move || format!("fonthex={} index=0 var=- req={}", hx2, fmt_req(&r2).replace(' ', "~"));
+                let before = st.nontrivial;
+                shape_checked(&face, &req, &mut st, &describe, true);
+                if st.nontrivial > before {
+                    moved_cross += 1;
+                }
+            }
+        }
+    }
+    println!(
+        "gen-summary fonts={} shapes={} glyphs={} horizontal={} vertical={} nontrivial={} known={} viol={} panics={} moved={}",
+        n, st.shapes, st.glyphs, st.horizontal, st.vertical, st.nontrivial, st.known, st.viol, st.panics, moved_cross
+    );
+}
+
+// ------------------------------------------------------------------------------------------------
+// single request (replays) and the witness of the known finding
+
+fn cmd_one(args: &[String]) {
+    let data = if let Some(p) = arg_str(args, "--font") {
+        std::fs::read(p).expect("read font")
+    } else {
+        unhex(arg_str(args, "--fonthex").expect("--font or --fonthex"))
+    };
+    let index = arg_u64(args, "--index", 0) as u32;
+    // the request in fmt_req syntax with '~' (or spaces) between the keys
+    let mut req = parse_req(&arg_str(args, "--req").unwrap_or("").replace('~', " "));
+    if let Some(g) = arg_str(args, "--nf") {
+        if let Ok(g) = g.parse::<u32>() {
+            req.nf_vs = Some(g);
+        }
+    }
+    let vars = arg_str(args, "--var").map(parse_vars).unwrap_or_default();
+    let res = catch(std::panic::AssertUnwindSafe(|| {
+        let Some(mut face) = Face::from_slice(&data, index) else { return None };
+        apply_vars(&mut face, &vars);
+        let d = effective_dir(&req);
+        let out = shape_req(&face, &req);
+        Some((d, out))
+    }));
+    match res {
+        Ok(Some((d, out))) => {
+            println!("ok dir={} out={}", dir_name(Some(d)), fmt_out(&out));
+            for (what, known) in broken(d, &out, req.nf_vs) {
+                println!("{} what={}", if known { "known" } else { "viol" }, what.replace(' ', ";"));
+            }
+        }
+        Ok(None) => println!("noface"),
+        Err(c) => println!("panic {}", c),
+    }
+}
+
+fn cmd_witness(args: &[String]) {
+    // FontSpec::basic: U+E000 -> glyph 1, no cmap-14 subtable; text <U+E000, U+FE00>
+    let g = arg_u64(args, "--nf", 0x12345) as u32;
+    let spec = FontSpec::basic(4);
+    let bytes = build(&spec);
+    let face = Face::from_slice(&bytes, 0).expect("face");
+    let mut req = Req::default();
+    req.text = vec![(0xE000, 0), (0xFE00, 1)];
+    req.nf_vs = Some(g);
+    let out = shape_req(&face, &req);
+    println!("witness nf={} out={}", g, fmt_out(&out));
+    for (what, known) in broken(Direction::LeftToRight, &out, req.nf_vs) {
+        println!("{} what={}", if known { "known" } else { "viol" }, what.replace(' ', ";"));
+    }
+}
+
+pub fn run(args: &[String]) {
+    quiet_panics();
+    let rest = if args.is_empty() { args } else { &args[1..] };
+    match args.first().map(|s| s.as_str()) {
+        Some("alphabet") => cmd_alphabet(),
+        Some("simple") => cmd_simple(rest),
+        Some("inv") => cmd_inv(rest),
+        Some("gen") => cmd_gen(rest),
+        Some("one") => cmd_one(rest),
+        Some("witness") => cmd_witness(rest),
+        _ => {
+            eprintln!("usage: rbv c16 alphabet|simple|inv|gen|one|witness");
+            std::process::exit(2);
+        }
+    }
 }
